@@ -5,6 +5,7 @@ dimensions x every combination of per-dimension selectors x keyword order.
 Oracle: rops.rslice (per-axis orthogonal take / zipped pointwise selection).
 """
 import itertools
+import os
 from collections import OrderedDict
 
 import numpy as np
@@ -164,6 +165,10 @@ class Prop(core.Prop):
                 for b_ in rng:
                     for st in (None, 1, 2, -1, -2):
                         yield {'file': group['file'], 'slice_dim': group['slice_dim'], 'args': [a, b_, st]}
+                        if st in (None, -1) and a in (None, 1) and b_ in (None, n):
+                            # the same call on a netCDF4.Dataset (values read from disk, masks from _FillValue)
+                            yield {'file': group['file'], 'slice_dim': group['slice_dim'], 'args': [a, b_, st],
+                                   'nc': True}
                         if st in (None, 2) and a in (None, 1) and b_ in (None, n, 1):
                             yield {'file': group['file'], 'slice_dim': group['slice_dim'], 'args': [a, b_, st],
                                    'fuzzy': True}
@@ -202,6 +207,18 @@ class Prop(core.Prop):
         sig = ('slice_dim', 'neg-step' if (st or 1) < 0 else 'pos-step')
         scope = dict(selcls='slice_dim', step=st, one_arg=len(args) == 1)
         vs = []
+        ncpath = None
+        if case.get('nc'):
+            import netCDF4, tempfile
+            fd, ncpath = tempfile.mkstemp(suffix='.nc', prefix='c02_', dir=os.environ.get('VERIF_SCRATCH') or None)
+            os.close(fd)
+            real.save(ncpath, format='NETCDF4', verbose=0).close()
+            real = netCDF4.Dataset(ncpath)
+            self._tmp = (real, ncpath)
+            # the reference is the slab of what the saved file holds (values and masks as read back)
+            rf = lib.snap(real, cls='PseudoNetCDFFile')
+            exp = rops.rslice(rf, OrderedDict([(d, ('s', a, b_, st))]))
+            sig = ('slice_dim-netcdf',) + sig[1:]
         try:
             got = slice_dim(real, text)
         except Exception as e:
@@ -214,7 +231,7 @@ class Prop(core.Prop):
             return result('viol', vs, [before])
         snap = lib.snap(got, cls=rf.cls)
         # the functional form appends to a history attribute: global attributes are not part of the hyperslab
-        diffs = rfile.file_diff(snap, exp, order=False, gattrs=False)
+        diffs = rfile.file_diff(snap, exp, order=False, gattrs=False, attrs=not case.get('nc'))
         if diffs:
             vs.append(viol('hyperslab-differs', sig, 'slice_dim(f, %r): %s' % (text, '; '.join(diffs)[:1200]),
                            **scope))
@@ -225,7 +242,16 @@ class Prop(core.Prop):
 
     def run_one(self, case):
         if 'slice_dim' in case:
-            return self.run_slice_dim(case)
+            self._tmp = None
+            try:
+                return self.run_slice_dim(case)
+            finally:
+                if self._tmp:
+                    try:
+                        self._tmp[0].close()
+                    except Exception:
+                        pass
+                    os.unlink(self._tmp[1])
         isio = 'ioapi' in case
         if isio:
             from .. import ioapi_u
